@@ -628,4 +628,62 @@ theorem prompt_contains_system_and_retained_inplace {tv : TVar} {mode : Nat} {tf
     exact ⟨m, m', h1, h2, h3, key m' (List.mem_append_right _ (List.mem_of_getLast? h2))⟩
 
 
+/-! ### the context length ChatHandler cuts for -/
+
+/-- **POST /api/chat cuts for the REQUEST's context length.**  Whatever number of parallel slots
+    the scheduler loaded the runner with (its own copy of the options holds
+    `runnerNumCtx lim numParallel`), a successful chat retains the longest recent run all of whose
+    shorter suffixes fit `requestNumCtx dflt modelParam reqOpt` — request option, else the model's
+    PARAMETER, else the default — measured with the model's template on the handler's conversation;
+    the outcome does not depend on `numParallel` at all. -/
+theorem handler_limit_is_request {fixed : Bool} {tv : TVar} {t : List Node} {dflt : Int}
+    {modelParam reqOpt : Option Int} {numParallel : Nat} {mm : List Msg} {s : Bytes} {req : List Msg}
+    {q n : Nat} {sys ret : List Msg} {imgs : List ImgOut} {p : Bytes}
+    (h : chatHandler fixed false tv t dflt modelParam reqOpt numParallel mm s req = .ok q n sys ret imgs p) :
+    (∀ np, chatHandler fixed false tv t dflt modelParam reqOpt np mm s req = .ok q n sys ret imgs p) ∧
+    ∃ cost bad,
+      let cfg : Cfg := ⟨fixed, false, 0, requestNumCtx dflt modelParam reqOpt⟩
+      let msgs := handlerMsgs mm s req
+      chatPrompt cfg cost bad msgs = .ok q n sys ret imgs ∧
+      (∀ j, n ≤ j → j + 1 < msgs.length → ((cost j : Nat) : Int) ≤ requestNumCtx dflt modelParam reqOpt) ∧
+      (n = 0 ∨ requestNumCtx dflt modelParam reqOpt < ((cost (n - 1) : Nat) : Int)) := by
+  refine ⟨fun np => h, ?_⟩
+  unfold chatHandler at h
+  simp only [Bool.false_eq_true, if_false] at h
+  obtain ⟨cost, bad, hg, _⟩ := templ_ok_generic h
+  refine ⟨cost, bad, hg, ?_, ?_⟩
+  · intro j h1 h2
+    have := (retained_first_failure hg).1 j h1 h2
+    simpa [fits, total] using this
+  · rcases (retained_first_failure hg).2 with h0 | hf
+    · exact Or.inl h0
+    · right
+      have : ¬ ((cost (n - 1) : Nat) : Int) ≤ requestNumCtx dflt modelParam reqOpt := by
+        simpa [fits, total] using hf
+      omega
+
+/-- the request's option wins over the model's PARAMETER, which wins over the default -/
+theorem requestNumCtx_precedence (dflt m r : Int) :
+    requestNumCtx dflt (some m) (some r) = r ∧ requestNumCtx dflt none (some r) = r ∧
+    requestNumCtx dflt (some m) none = m ∧ requestNumCtx dflt none none = dflt := by
+  simp [requestNumCtx]
+
+/-- first retained index of a successful outcome -/
+def cutOf : OutcomeT → Option Nat
+  | .ok _ n _ _ _ _ => some n
+  | _ => none
+
+/-- **Why the runner's copy must not be used**: `[user "long long long", user "hi"]`, the in-place
+    template (3 whitespace tokens for both messages), `num_ctx = 2`, two parallel slots.  Cut for the
+    request, only the latest message is sent (`n = 1`); cut for the runner's `NumCtx = 8` (clamped to
+    4, times 2 slots) the old message would be sent as well (`n = 0`) — a prompt that does not fit
+    the request's context length. -/
+theorem handler_runner_opts_would_overflow :
+    cutOf (chatHandler true false ⟨2, true⟩ tInPlace 2048 none (some 2) 2 [] []
+      [⟨.user, txt bLong, []⟩, ⟨.user, txt bHi, []⟩]) = some 1 ∧
+    cutOf (chatHandler true true ⟨2, true⟩ tInPlace 2048 none (some 2) 2 [] []
+      [⟨.user, txt bLong, []⟩, ⟨.user, txt bHi, []⟩]) = some 0 ∧
+    runnerNumCtx 2 2 = 8 ∧ runnerNumCtx 40 4 = 160 := by
+  decide
+
 end OllamaVerif.C19
